@@ -95,11 +95,82 @@ func renderStatic(b numscript.Balances, m numscript.AccountsMetadata) string {
 	return fmt.Sprint(out) + "|" + fmt.Sprint(m)
 }
 
+// coldCase: G goroutines run one parse result at once as the first executions of this process;
+// every result must equal the one a sequential run gives afterwards.
+func coldCase(c *fw.Ctx, id string, k int, strata []stratum) {
+	r := c.Rng(id)
+	cfg := strata[k%len(strata)].cfg
+	cfg.PPortionVar, cfg.PVarAmt, cfg.PVarAcct, cfg.PDstAllot, cfg.PSrcAllot = 60, 60, 50, 40, 25
+	cs := genCase(r, cfg)
+	if r.Bool() {
+		addMetaOrigin(cs, r.Intn(9))
+	}
+	txt := gen.PrintCanonical(cs.Script).Text
+	po := real.Parse(txt)
+	if po.Panicked || len(po.Errors) > 0 {
+		return
+	}
+	flags := real.FlagsOf(cs)
+	const nG = 8
+	outs := make([]string, nG)
+	var wg sync.WaitGroup
+	start := make(chan struct{})
+	for g := 0; g < nG; g++ {
+		wg.Add(1)
+		go func(g int) {
+			defer wg.Done()
+			vm := numscript.VariablesMap{}
+			for kk, v := range cs.Vars {
+				vm[kk] = v
+			}
+			st := real.NewStore(real.Exact, cs.Balances, cs.Meta)
+			<-start
+			p, v, fr := fw.Catch(func() {
+				res, err := po.Result.RunWithFeatureFlags(bg, vm, st, flags)
+				outs[g] = summarize(res, err)
+			})
+			if p {
+				outs[g] = fmt.Sprintf("panic (%s): %v", fr, v)
+			}
+		}(g)
+	}
+	close(start)
+	wg.Wait()
+	c.Evals(nG)
+	st := real.NewStore(real.Exact, cs.Balances, cs.Meta)
+	var ref string
+	fw.Catch(func() {
+		res, err := po.Result.RunWithFeatureFlags(bg, cs.Vars, st, flags)
+		ref = summarize(res, err)
+	})
+	for g, o := range outs {
+		if o != ref {
+			c.Violation("cold-concurrent-result-differs", fmt.Sprintf("first runs of a process, %d at once: goroutine %d: %s ⏎ a sequential run afterwards: %s", nG, g, o, ref), cs.Describe())
+			return
+		}
+	}
+	c.Count("cold_start_concurrent_runs", nG)
+	c.Distinct("cold|" + shapeKey(cs.Script))
+}
+
 func runC11(c *fw.Ctx) {
 	strata := c10Strata()
 	nG, nM := 8, 6
 	if !c.Quick {
 		nG, nM = 16, 12
+	}
+	// ---- (0) cold start: the very first runs of a process are concurrent ones (each of these
+	// cases is executed in a process of its own, before anything has been run sequentially) ----
+	for k := 0; k < c.N(32, 320); k++ {
+		id := "cold/" + itoa(k)
+		if !c.Want(90_000_000+k, id) {
+			continue
+		}
+		if c.RunIsolated(id) {
+			c.Count("cases_run_in_a_process_of_their_own", 1)
+			continue
+		}
+		coldCase(c, id, k, strata)
 	}
 	forEachCase(strata, c.N(4000, 60000), func(i int, id string, st *stratum, k int) {
 		if !c.Want(i, id) {
@@ -149,6 +220,48 @@ func runC11(c *fw.Ctx) {
 			c.Count("purity_checks", 1)
 		}
 		c.Count("repetition_groups", 1)
+		// two variables with texts that cannot be read: which failure is reported must not vary
+		if k%5 == 2 {
+			var plain []*gen.VarDecl
+			for _, d := range cs.Script.Vars {
+				if d.Origin == nil && len(hostileByType[d.Type]) > 0 {
+					plain = append(plain, d)
+				}
+			}
+			if len(plain) >= 2 {
+				bad := map[string]string{}
+				for kk, v := range cs.Vars {
+					bad[kk] = v
+				}
+				a, b := plain[r.Intn(len(plain))], plain[r.Intn(len(plain))]
+				for b == a {
+					b = plain[r.Intn(len(plain))]
+				}
+				for _, d := range []*gen.VarDecl{a, b} {
+					hs := hostileByType[d.Type]
+					bad[d.Name] = hs[r.Intn(len(hs))].text
+				}
+				first := ""
+				for rep := 0; rep < 16; rep++ {
+					st := real.NewStore(real.Exact, cs.Balances, cs.Meta)
+					o := real.Run(po.Result, bad, flags, st)
+					c.Eval()
+					sum := o.Summary() + " " + o.ErrText
+					if o.Panicked {
+						sum = "panic " + o.PanicVal
+					}
+					if rep == 0 {
+						first = sum
+					} else if sum != first {
+						d := cs.Describe()
+						d["vars"] = bad
+						c.Violation("nondeterministic-error", fmt.Sprintf("the same inputs (two unreadable variable texts): run 1: %s ⏎ run %d: %s", first, rep+1, sum), d)
+						return
+					}
+				}
+				c.Count("repetitions_with_two_unreadable_variables", 1)
+			}
+		}
 		// a result handed out earlier (previous case) must still be what it was
 		if keptSum != "" {
 			if now := real.Summarize(keptRes, nil); now != keptSum {
